@@ -27,6 +27,8 @@ EXPLANATION = (
 EXPLANATION += ' R17.12: pending-write state is assigned after the previous write was closed.'
 EXPLANATION += ' R17.11: the right-hand side of an augmented write is parenthesised in the setter call.'
 EXPLANATION += " R17.13: in the anchored modules and the shared text utilities no source text is cut with str.splitlines() (it breaks at form feed, \x1c-\x1e, \x85, U+2028/9; rope's and the ast's line numbers count \n only)."
+EXPLANATION += " R17.14: inside the loop over the files of a refactoring no handler swallows an error (a file is never silently left out of a multi-file change)."
+EXPLANATION += " R17.15: program text that is moved is not whitespace-normalised (the result of `\" \".join(text.split())` is only ever compared, never emitted)."
 ASSUMPTIONS = ["R17.1 and R17.4 share their rule bodies with C04 and C03"]
 
 
@@ -218,8 +220,12 @@ def _check_body(ctx, res) -> None:
                 (isinstance(arg, ast.Subscript) and isinstance(arg.slice, ast.Constant) and arg.slice.value == 1))
             res.add("R17.8", f"get_changed_module|setter-closes-at-logical-end#{n8}", ok, f"{gcm.unit.rel}:{x.lineno}",
                     "the pending setter call is closed at the end of the statement's logical line" if ok else
-                    f"the position where the setter call is closed is `{ast.unparse(x.value)}`, not the end of the logical line: for a write whose value "
-                    "continues over several physical lines the `)` lands after the first line and the module no longer parses", function=gcm.qualname)
+                    (f"the position where the setter call is closed is computed by `{ast.unparse(x.value)[:60]}`, a scan of the line's text, not `get_line_end(<end of the logical line>)`: "
+                     "the end of the logical line is the one position known to lie behind the whole value -- a scan for `;`, `#` or a line break can stop INSIDE a literal it does not "
+                     "know to be one (real_code keeps the text of f-strings), so `a.label = f\"{n} entries; checked\"` becomes `a.set_label(f\"{n} entries); checked\"`"
+                     if is_self_attr(x.value.func) and call_name(x.value) != "get_line_end" else
+                     f"the position where the setter call is closed is `{ast.unparse(x.value)}`, not the end of the logical line: for a write whose value "
+                     "continues over several physical lines the `)` lands after the first line and the module no longer parses"), function=gcm.qualname)
     res.floor("R17.8", "places where the pending setter's end is recorded", n8, 1)
 
     # ---- R17.10 which imports are added is never decided on the module's text lines
@@ -307,6 +313,12 @@ def check(ctx, res) -> None:
     from .common import line_model_rule as _lm
 
     _lm(ctx, res, "R17.13", ('rope.refactor.encapsulate_field', 'rope.refactor.introduce_factory', 'rope.refactor.method_object', 'rope.refactor.localtofield', 'rope.refactor.usefunction', 'rope.refactor.restructure'))
+    from .common import per_file_no_skip_rule as _pf
+
+    _pf(ctx, res, "R17.14", ('rope.refactor.encapsulate_field', 'rope.refactor.introduce_factory', 'rope.refactor.usefunction', 'rope.refactor.restructure', 'rope.refactor.method_object', 'rope.refactor.localtofield'))
+    from .common import no_whitespace_normalisation_rule as _wn
+
+    _wn(ctx, res, "R17.15", ('rope.refactor.encapsulate_field', 'rope.refactor.introduce_factory', 'rope.refactor.method_object', 'rope.refactor.localtofield', 'rope.refactor.usefunction', 'rope.refactor.restructure'))
 
 
 def _pending_write_state_rule(ctx, res) -> None:
